@@ -14,6 +14,7 @@ package main
 
 import (
 	"fmt"
+	"iter"
 	"sort"
 	"strconv"
 	"strings"
@@ -586,6 +587,8 @@ func execUmap(op string, a []string) vlib.Res {
 		return vlib.Res{Impl: fmt.Sprintf("n=%d size=%d %s", cache.VerifUMapDataLen(um), um.Len(), pairsStr(sortedPairs(t))), Oracle: aud()}
 	case "iter":
 		return vlib.Res{Impl: pairsStr(iterPairs(t)), Oracle: aud()}
+	case "keys", "values", "first":
+		return iterOp("umap", op, a, um.Keys(), um.Values(), um.All(), uRef, aud)
 	case "slots":
 		sl := cache.VerifUMapSlots(um)
 		p := make([]string, len(sl))
@@ -807,6 +810,8 @@ func execSegmap(op string, a []string) vlib.Res {
 		return vlib.Res{Impl: fmt.Sprintf("len=%d", sm.Len()), Oracle: aud(), Tags: tagStr(tags)}
 	case "dump":
 		return vlib.Res{Impl: fmt.Sprintf("count=%d %s", sm.Len(), pairsStr(sortedPairs(t))), Oracle: aud()}
+	case "keys", "values", "first":
+		return iterOp("segmap", op, a, sm.Keys(), sm.Values(), sm.All(), sRef, aud)
 	case "sweep":
 		if !need(a, 4) || (a[1] != "set" && a[1] != "del") {
 			break
@@ -888,6 +893,69 @@ func sweepOp(sub string, t table, ref map[uint64]uint64, pool map[uint64]bool, j
 		tags = "nt,sweep"
 	}
 	return vlib.Res{Impl: "w=" + w + " " + pairsStr(visited), Oracle: verdict(or, audit(sub, "sweep", t, ref, pool)), Tags: tags}
+}
+
+// iterOp drives the range-over-func iterators (Keys, Values, All) and an
+// iteration that stops early. Oracle from the reference map: Keys yields every
+// stored key exactly once, Values the multiset of stored values, a stopped
+// iteration delivers exactly j+1 distinct stored pairs (or all, if fewer).
+func iterOp(sub, op string, a []string, keys iter.Seq[uint64], values iter.Seq[uint64], all iter.Seq2[uint64, uint64],
+	ref map[uint64]uint64, aud func() string) vlib.Res {
+	or := ""
+	switch op {
+	case "keys":
+		var ks []uint64
+		seen := map[uint64]int{}
+		for k := range keys {
+			ks = append(ks, k)
+			seen[k]++
+			if _, in := ref[k]; (!in || seen[k] > 1) && or == "" {
+				or = fail(sub+"/keys/wrong-result", "Keys() yields key=%d (stored=%v, %d times)", k, in, seen[k])
+			}
+		}
+		if len(ks) != len(ref) && or == "" {
+			or = fail(sub+"/keys/wrong-result", "Keys() yields %d keys, %d stored", len(ks), len(ref))
+		}
+		return vlib.Res{Impl: joinKeys(ks), Oracle: verdict(or, aud())}
+	case "values":
+		var vs []uint64
+		want := map[uint64]int{}
+		for _, v := range ref {
+			want[v]++
+		}
+		for v := range values {
+			vs = append(vs, v)
+			want[v]--
+		}
+		for v, c := range want {
+			if c != 0 && or == "" {
+				or = fail(sub+"/values/wrong-result", "Values() yields value %d %+d times too few/many", v, c)
+			}
+		}
+		return vlib.Res{Impl: joinKeys(vs), Oracle: verdict(or, aud())}
+	case "first":
+		if !need(a, 1) {
+			break
+		}
+		j := vlib.Atoi(a[0])
+		var ps []kv
+		seen := map[uint64]bool{}
+		for k, v := range all {
+			ps = append(ps, kv{k, v})
+			if rv, in := ref[k]; (!in || rv != v || seen[k]) && or == "" {
+				or = fail(sub+"/first/wrong-result", "stopped iteration yields %d:%d (stored=%v, again=%v)", k, v, in, seen[k])
+			}
+			seen[k] = true
+			if len(ps) == j+1 {
+				break
+			}
+		}
+		if want := min(j+1, len(ref)); len(ps) != want && or == "" {
+			or = fail(sub+"/first/wrong-result", "iteration stopped after entry #%d delivered %d entries, want %d", j, len(ps), want)
+		}
+		return vlib.Res{Impl: pairsStr(ps), Oracle: verdict(or, aud())}
+	}
+	return vlib.Res{Impl: "bad-op"}
 }
 
 // allSegSlots concatenates the raw slot arrays of all segments separated by
